@@ -375,6 +375,9 @@ def check_config(ctx, F, tag, cfg):
     # when a BitVector is made from a RawVector; it is exact only while the bits past `len` in the last word are zero.
     import c05
     c05.check_tail_invariant(ctx, F, tag, prefix="C08.R7.unused-bits-zero")
+    from core import Relabel
+    c05.check_word_count(ctx, F, tag, rule="C08.R7.raw-vector-word-count")
+    c05.check_write_int(Relabel(ctx, {"C08.R7w.value-masked-before-store": "C08.R7.raw-vector-write-stays-in-field"}), F, tag, prefix="C08.R7w")
     # R8 (borrowed): the values the reviewed unchecked reads trust -- the cached count, the positions select() returns, a mapping
     # that really exists -- are established by rules owned by C01 / C18
     from core import Relabel
